@@ -235,7 +235,7 @@ fn compute(
     }
 }
 
-const HDR: &str = "DEFFRAME 0 \"x\":\n    SAMPLE-RATE: 4.0\nDEFFRAME 0 \"y\":\n    SAMPLE-RATE: 8.0\nDEFFRAME 1 \"x\":\n    SAMPLE-RATE: 4.0\nDEFFRAME 0 1 \"z\":\n    SAMPLE-RATE: 4.0\nDEFFRAME 2 \"n\":\n    INITIAL-FREQUENCY: 1.0\nDEFWAVEFORM w4:\n    1, 1, 1, 1\nDEFWAVEFORM w2:\n    1, 1\nDEFCAL A 0:\n    PULSE 0 \"x\" flat(duration: 1.0, iq: 1.0)\nDEFCAL B 0 1:\n    FENCE 1\n    PULSE 0 1 \"z\" flat(duration: 1.0, iq: 1.0)\nDEFCAL C q:\n    DELAY q 0.5\n    A q\n    SHIFT-PHASE q \"x\" 1.0\nDEFCAL RX(%t) 0:\n    SHIFT-PHASE 0 \"x\" %t\n    PULSE 0 \"x\" w4\n    NONBLOCKING PULSE 0 \"y\" w4\nDEFCAL MEASURE 0 addr:\n    CAPTURE 0 \"y\" flat(duration: 0.25, iq: 1.0) addr\n";
+const HDR: &str = "DEFFRAME 0 \"x\":\n    SAMPLE-RATE: 4.0\nDEFFRAME 0 \"y\":\n    SAMPLE-RATE: 8.0\nDEFFRAME 1 \"x\":\n    SAMPLE-RATE: 4.0\nDEFFRAME 0 1 \"z\":\n    SAMPLE-RATE: 4.0\nDEFFRAME 2 \"n\":\n    INITIAL-FREQUENCY: 1.0\nDEFWAVEFORM w4:\n    1, 1, 1, 1\nDEFWAVEFORM w2:\n    1, 1\nDEFCAL A 0:\n    PULSE 0 \"x\" flat(duration: 1.0, iq: 1.0)\nDEFCAL B 0 1:\n    FENCE 1\n    PULSE 0 1 \"z\" flat(duration: 1.0, iq: 1.0)\nDEFCAL C q:\n    DELAY q 0.5\n    A q\n    SHIFT-PHASE q \"x\" 1.0\nDEFCAL RX(%t) 0:\n    SHIFT-PHASE 0 \"x\" %t\n    PULSE 0 \"x\" w4\n    NONBLOCKING PULSE 0 \"y\" w4\nDEFCAL MEASURE 0 addr:\n    CAPTURE 0 \"y\" flat(duration: 0.25, iq: 1.0) addr\nDEFCAL G 0:\n    NONBLOCKING PULSE 0 \"y\" flat(duration: 1.0, iq: 1.0)\n    NONBLOCKING PULSE 0 \"x\" flat(duration: 10.0, iq: 1.0)\nDEFCAL H 0:\n    NONBLOCKING PULSE 0 \"x\" flat(duration: 4.0, iq: 1.0)\n    NONBLOCKING PULSE 0 \"y\" flat(duration: 0.5, iq: 1.0)\nDEFCAL KF 0 1:\n    NONBLOCKING PULSE 1 \"x\" flat(duration: 0.5, iq: 1.0)\n    NONBLOCKING PULSE 0 \"x\" flat(duration: 3.0, iq: 1.0)\n    NONBLOCKING CAPTURE 0 \"y\" flat(duration: 1.5, iq: 1.0) ro[0]\n    FENCE 0 1\nDEFCAL K3 0 1:\n    NONBLOCKING PULSE 0 \"x\" flat(duration: 2.0, iq: 1.0)\n    NONBLOCKING PULSE 1 \"x\" flat(duration: 5.0, iq: 1.0)\n    NONBLOCKING PULSE 0 \"y\" flat(duration: 0.25, iq: 1.0)\nDEFCAL N 0:\n    G 0\n    H 0\nDEFCAL D 0 1:\n    DELAY 0 \"x\" 2.0\n    DELAY 1 \"x\" 0.25\n    DELAY 0 \"y\" 1.0\n";
 
 const CORPUS: &[&str] = &[
     // schedule.rs tests (durations made dyadic)
@@ -266,6 +266,16 @@ const CORPUS: &[&str] = &[
     "PULSE 0 \"x\" flat(duration: 1.0)\nHALT\n",
     "CAPTURE 0 \"y\" flat(duration: 0.5) ro[0]\nRAW-CAPTURE 0 \"x\" 0.75 ro[0]\nDELAY 0 0.125\n",
     "DELAY 0 1 \"x\" 2.0\nPULSE 1 \"x\" flat(duration: 1.0)\nPULSE 0 \"x\" flat(duration: 1.0)\n",
+    // calibrations whose expansion holds CONCURRENT items with nested spans (missed by an earlier version of this
+    // stream: `TimeSpan::union` returning [first.start, second.end] is wrong exactly when one span contains the other)
+    "G 0\n",
+    "H 0\n",
+    "G 0\nH 0\n",
+    "N 0\n",
+    "KF 0 1\n",
+    "K3 0 1\n",
+    "D 0 1\n",
+    "K3 0 1\nG 0\nD 0 1\n",
 ];
 
 const ALPHABET: &[&str] = &[
@@ -280,6 +290,12 @@ const ALPHABET: &[&str] = &[
     "A 0",
     "B 0 1",
     "CAPTURE 0 \"y\" flat(duration: 0.75) ro[0]",
+    "G 0",
+    "H 0",
+    "K3 0 1",
+    "KF 0 1",
+    "N 0",
+    "D 0 1",
 ];
 
 fn all_seqs(len: usize, base: u64, f: &mut impl FnMut(&[u64])) {
@@ -307,7 +323,7 @@ fn random_line(rng: &mut Rng) -> String {
     let d = *rng.pick(&D);
     let f = *rng.pick(&FR);
     let nb = if rng.chance(1, 3) { "NONBLOCKING " } else { "" };
-    match rng.below(24) {
+    match rng.below(25) {
         0 | 1 | 2 => format!("{nb}PULSE {f} flat(duration: {d}, iq: 1.0)"),
         3 => {
             let pr = *rng.pick(&D);
@@ -331,7 +347,17 @@ fn random_line(rng: &mut Rng) -> String {
         17 => "B 0 1".to_string(),
         18 => format!("C {}", rng.below(2)),
         19 => "RX(0.5) 0".to_string(),
-        20 => "MEASURE 0 ro[0]".to_string(),
+        20 => match rng.below(8) {
+            0 => "G 0".to_string(),
+            1 => "H 0".to_string(),
+            2 => "K3 0 1".to_string(),
+            3 => "KF 0 1".to_string(),
+            4 => "N 0".to_string(),
+            5 => "D 0 1".to_string(),
+            6 | 7 => "R 0 1".to_string(),
+            _ => unreachable!(),
+        },
+        24 => "MEASURE 0 ro[0]".to_string(),
         21 => format!("SET-SCALE {f} 1.0"),
         22 => format!("PULSE {f} flat(iq: 1.0)"),
         _ => match rng.below(6) {
@@ -341,6 +367,33 @@ fn random_line(rng: &mut Rng) -> String {
             _ => format!("SHIFT-FREQUENCY {f} 1.0"),
         },
     }
+}
+
+/// `DEFCAL R 0 1:` with 2-3 concurrent items (non-blocking pulses / captures, delays) on pairwise distinct frames
+/// with pairwise distinct dyadic durations in a random order, optionally followed by a FENCE, optionally nested.
+fn random_calibration(rng: &mut Rng) -> String {
+    const FRAMES: [&str; 4] = ["0 \"x\"", "0 \"y\"", "1 \"x\"", "0 1 \"z\""];
+    const DUR: [&str; 6] = ["0.25", "0.5", "1.0", "2.0", "3.0", "8.0"];
+    let n = 2 + rng.below(2) as usize;
+    let mut frames: Vec<&str> = FRAMES.to_vec();
+    let mut durs: Vec<&str> = DUR.to_vec();
+    let mut body = String::new();
+    for _ in 0..n {
+        let f = frames.remove(rng.below(frames.len() as u64) as usize);
+        let d = durs.remove(rng.below(durs.len() as u64) as usize);
+        match rng.below(4) {
+            0 | 1 => body.push_str(&format!("    NONBLOCKING PULSE {f} flat(duration: {d}, iq: 1.0)\n")),
+            2 => body.push_str(&format!("    NONBLOCKING CAPTURE {f} flat(duration: {d}, iq: 1.0) ro[0]\n")),
+            _ => body.push_str(&format!("    DELAY {f} {d}\n")),
+        }
+    }
+    if rng.chance(1, 3) {
+        body.push_str("    FENCE 0 1\n");
+    }
+    if rng.chance(1, 4) {
+        body.push_str(if rng.chance(1, 2) { "    G 0\n" } else { "    H 0\n" });
+    }
+    format!("DEFCAL R 0 1:\n{body}")
 }
 
 fn main() {
@@ -372,6 +425,7 @@ fn run(ctx: &mut Ctx) {
         if rng.chance(1, 8) {
             body.push_str("HALT\n");
         }
-        case(ctx, "random", &format!("{HDR}{body}"));
+        let cal = random_calibration(&mut rng);
+        case(ctx, "random", &format!("{HDR}{cal}{body}"));
     }
 }
